@@ -151,6 +151,14 @@ def family_job(args):
     """ one process = one family of configurations sharing block layouts; all programs of the family run in this process, caches shared """
     fi, seeds, nsteps = args
     rule_sym, cfgs = FAMILIES[fi]
+    import yastn  # noqa
+    # a pool worker may have run another job before: the model starts from empty caches, so must the process - EVERY instance, also import-time aliases that an earlier
+    # set_cache_maxsize() left behind and clear_cache() does not reach (not logged: before the trace starts)
+    for mname, mod in list(sys.modules.items()):
+        if mname.startswith('yastn.tensor') and mod is not None:
+            for obj in list(vars(mod).values()):
+                if isinstance(obj, functools._lru_cache_wrapper):
+                    obj.cache_clear()
     rec = Recorder()
     rec.install()
     same = []
